@@ -48,7 +48,12 @@ func newEnv(prop, tier string) *Env {
 		}
 		seed = uint64(v)
 	}
-	scratch, err := os.MkdirTemp("", "verif-"+prop+"-")
+	scratch, err := os.Getenv("VERIF_SCRATCH"), error(nil)
+	if scratch != "" {
+		err = os.MkdirAll(scratch, 0755)
+	} else {
+		scratch, err = os.MkdirTemp("", "verif-"+prop+"-")
+	}
 	if err != nil {
 		fatalInconclusive("scratch: %v", err)
 	}
